@@ -24,8 +24,9 @@ QUICK_BUDGET_S = 80
 THOROUGH_BUDGET_S = 900
 RULE = ("in-memory mapsets: built from objects (1-3 charts sharing one tempo list, every keyed chart type, tempo points on "
         "measure lines or on 1/16 beats, objects on grids of denominators 1-9,12,16,32,48,64,96 and off-grid, measures "
-        "needing > 384 rows, empty leading measures, selectable False, header strings), obtained by SMMapSet.read of a "
-        "generated text, and by rate(); non-trivial = at least 3 objects and (a hold/roll, or 2 tempo points, or an empty "
+        "needing > 384 rows, empty leading measures, selectable False, header strings, fractional-millisecond offsets), "
+        "obtained by SMMapSet.read of a generated text, by OsuToSM / QuaToSM conversion of a generated osu!mania / Quaver map, "
+        "and by rate(); non-trivial = at least 3 objects and (a hold/roll, or 2 tempo points, or an empty "
         "leading measure, or a capped measure)")
 ASSUMPTIONS = [
     "header strings contain no ';' ':' '#' '//' and no surrounding whitespace (MSD has no escape in this writer)",
@@ -37,7 +38,7 @@ TRUSTED_EXTRA = ["the exactness / 1/96-beat comparison of (S) is evaluated in Py
 KEYED = c02.KEYED
 ATTR = c02.ATTR
 E_BPMS = [120, 60, 150, 75, 240, 100, 200, 125, 187.5, 93.75, 300, 480, 50]
-DENS = [1, 2, 3, 4, 5, 6, 7, 8, 9, 12, 16, 32, 48, 64, 96]
+DENS = [1, 2, 3, 4, 5, 6, 7, 8, 9, 11, 12, 13, 16, 27, 32, 48, 64, 96]
 WORDS = ["Song", "a b", "Ünï", "日本", "x-1", "mix (v2)", "", "A", "file.ogg", "bg.png", "120", "the end."]
 KINDS = ["hit", "hit", "hit", "mine", "lift", "fake", "keysound", "hold", "roll"]
 
@@ -85,7 +86,7 @@ def gen_chart(rng, tempo, t0, style):
         elif style == "offgrid":
             dens = [rng.choice(DENS)]
         else:
-            dens = [rng.choice([1, 2, 3, 4, 4, 6, 8, 12, 16, 24, 5, 7, 9, 32, 48])] * 2
+            dens = [rng.choice([1, 2, 3, 4, 4, 6, 8, 12, 16, 24, 5, 7, 9, 11, 32, 48])] * 2
             if rng.random() < 0.3:
                 dens.append(rng.choice(DENS))
         for _ in range(rng.choice([1, 2, 4, 8])):
@@ -140,15 +141,27 @@ def gen(rng, tier, i):
         return dict(claim="write", origin="read", text=c02.render(c), rate=R(rng.choice([0.5, 2.0, 1.5, 0.75, 1.25])))
     mode = rng.choice(["line", "line", "mid"])
     style = rng.choice(["grid", "grid", "grid", "capped", "offgrid"])
+    via = rng.choice(["osu", "qua"]) if rng.random() < 0.15 else None
     tempo = gen_tempo(rng, mode)
-    t0 = Fr(rng.choice([0, 0, -500, 250, 1234.5, -37.25]))
-    nch = rng.choice([1, 1, 2, 3])
+    t0 = Fr(rng.choice([0, 0, -500, 250, 1234.5, -37.25, 1000.25, 577.2727, 0.4]))
+    nch = rng.choice([1, 1, 2, 3]) if via is None else 1
     charts = [gen_chart(rng, tempo, t0, style) for _ in range(nch)]
+    if via is not None:
+        # a mapset obtained by conversion: osu!mania / Quaver carry taps and holds only; the key count is max column + 1
+        c = charts[0]
+        keys = KEYED[c["type"]]
+        c["type"] = {3: "dance-threepanel", 4: "dance-single", 6: "dance-solo", 7: "kb7-single", 8: "dance-double"}[keys]
+        c["notes"] = [n if n[0] in ("hit", "hold") else (["hit"] + n[1:3] + [R(0)] if n[0] != "roll" else ["hold"] + n[1:]) for n in c["notes"]]
+        first = R(float(time_of(tempo, t0, Fr(0))))
+        c["notes"] = [n for n in c["notes"] if not (n[1] in (0, keys - 1) and F(n[2]) == F(first))]
+        c["notes"] += [["hit", keys - 1, first, R(0)], ["hit", 0, first, R(0)]]
     bpms = [[R(float(time_of(tempo, t0, b))), R(float(bpm))] for b, bpm in tempo]
     hdr = dict(strs={a: (rng.choice(WORDS) if rng.random() < 0.5 else "") for a in ATTR.values()},
                offset=bpms[0][0], sample_start=R(rng.choice([0.0, 12500.0, 30000.0])),
                sample_length=R(rng.choice([10.0, 10000.0, 15500.0])), selectable=rng.random() < 0.6)
     rate = R(rng.choice([0.5, 2.0, 1.5, 0.75])) if rng.random() < 0.12 else None
+    if via is not None:
+        return dict(claim="write", origin="convert", via=via, mode=mode, style=style, hdr=hdr, bpms=bpms, charts=charts, rate=rate)
     return dict(claim="write", origin="built", mode=mode, style=style, hdr=hdr, bpms=bpms, charts=charts, rate=rate)
 
 
@@ -227,6 +240,8 @@ def build_mapset(case):
                                          SMRollList)
     if case["origin"] == "read":
         ms = SMMapSet.read(case["text"])
+    elif case["origin"] == "convert":
+        ms = convert_source(case)
     else:
         ms = SMMapSet()
         h = case["hdr"]
@@ -258,6 +273,42 @@ def build_mapset(case):
         pre = ms
         ms = ms.rate(float(F(case["rate"])))
     return ms, pre
+
+
+def convert_source(case):
+    """the generated chart as an osu!mania / Quaver map, converted to StepMania by the library's converter"""
+    c = case["charts"][0]
+    hits = [dict(offset=float(F(n[2])), column=n[1]) for n in c["notes"] if n[0] == "hit"]
+    holds = [dict(offset=float(F(n[2])), column=n[1], length=float(F(n[3]))) for n in c["notes"] if n[0] == "hold"]
+    if case["via"] == "osu":
+        from reamber.osu.OsuMap import OsuMap
+        from reamber.osu.OsuBpm import OsuBpm
+        from reamber.osu.lists.OsuBpmList import OsuBpmList
+        from reamber.osu.lists.notes.OsuHitList import OsuHitList
+        from reamber.osu.lists.notes.OsuHoldList import OsuHoldList
+        from reamber.algorithms.convert.OsuToSM import OsuToSM
+        m = OsuMap()
+        m.bpms = OsuBpmList([OsuBpm(float(F(o)), float(F(b))) for o, b in case["bpms"]])
+        if hits:
+            m.hits = OsuHitList.from_dict(hits)
+        if holds:
+            m.holds = OsuHoldList.from_dict(holds)
+        m.title, m.artist, m.creator = case["hdr"]["strs"]["title"], case["hdr"]["strs"]["artist"], case["hdr"]["strs"]["credit"]
+        return OsuToSM.convert(m)
+    from reamber.quaver.QuaMap import QuaMap
+    from reamber.quaver.QuaBpm import QuaBpm
+    from reamber.quaver.lists.QuaBpmList import QuaBpmList
+    from reamber.quaver.lists.notes.QuaHitList import QuaHitList
+    from reamber.quaver.lists.notes.QuaHoldList import QuaHoldList
+    from reamber.algorithms.convert.QuaToSM import QuaToSM
+    m = QuaMap()
+    m.bpms = QuaBpmList([QuaBpm(float(F(o)), float(F(b))) for o, b in case["bpms"]])
+    if hits:
+        m.hits = QuaHitList.from_dict(hits)
+    if holds:
+        m.holds = QuaHoldList.from_dict(holds)
+    m.title, m.artist, m.creator = case["hdr"]["strs"]["title"], case["hdr"]["strs"]["artist"], case["hdr"]["strs"]["credit"]
+    return QuaToSM.convert(m)
 
 
 def extract(ms):
@@ -354,7 +405,8 @@ def tempo_on_lines(bpms):
 
 def run(case, drv):
     logging.disable(logging.WARNING)
-    tags = [case["origin"]] + ([case["style"], case["mode"]] if case["origin"] == "built" else []) + (["rate"] if case.get("rate") else [])
+    tags = [case["origin"]] + ([case["style"], case["mode"]] if case["origin"] in ("built", "convert") else []) + \
+        (["via-" + case["via"]] if case.get("via") else []) + (["rate"] if case.get("rate") else [])
     detail = {}
     try:
         ms, ms_pre = build_mapset(case)
